@@ -36,8 +36,10 @@
 //     aff  <var> <den> <b> <coeffs>          affine_image(Variable(var), coeffs·x + b, den)     (n coefficients)
 //     gaff <var> <le|ge|eq> <den> <b> <coeffs>   generalized_affine_image(Variable(var), relsym, coeffs·x + b, den)
 //     baff <var> <den> <bl> <lcoeffs> <bu> <ucoeffs>  bounded_affine_image(Variable(var), lb, ub, den)
+//     apre <var> <den> <b> <coeffs>          affine_preimage(Variable(var), coeffs·x + b, den)
+//     gapre <var> <le|ge|eq> <den> <b> <coeffs>  generalized_affine_preimage(Variable(var), relsym, coeffs·x + b, den)
 //     unc  <var>                             unconstrain(Variable(var))
-//     oaff <var> <den> <b> <coeffs>          Octagonal_Shape<T>::affine_image (mpz, int8, mpq)
+//     oaff <var> <den> <b> <coeffs>          Octagonal_Shape<T>::affine_image (mpz, int8, mpq, double; --oct <cases>)
 #include <cstdio>
 #include <cstdlib>
 #include <cstring>
@@ -248,21 +250,31 @@ template <typename S> std::string outcome(const S& s) { return s.marked_empty() 
 template <typename T> void run_T(pplv::Rng& g, const std::string& idp, int per) {
   const std::string mode = Ty<T>::mode();
   for (int c = 0; c < per; ++c) {
-    dimension_type n = 1 + g.below(4);
-    unsigned dens = 10 + g.below(70);
+    static const dimension_type ns[] = {1, 1, 2, 2, 2, 2, 3, 3, 3, 3, 3, 4};
+    dimension_type n = ns[g.below(12)];
     unsigned unary = g.below(3);
+    // one or two unary bounds missing: few binary constraints, so that closure does not restore them
+    unsigned dens = unary == 1 ? g.below(35) : 10 + g.below(70);
     bool near_limit = g.chance(1, 4);
     std::string id = idp + "." + std::to_string(c);
-    unsigned what = g.below(16);
+    unsigned what = g.below(22);
     BD_Shape<T> bd(n, UNIVERSE);
     fill(g, bd, dens, unary, near_limit);
     if (g.chance(3, 4)) {
       bd.shortest_path_closure_assign();
       if (bd.marked_empty()) continue;
     }
+    else {
+      // left unclosed: most random matrices are empty; keep only a quarter of the empty ones
+      BD_Shape<T> probe(bd);
+      probe.shortest_path_closure_assign();
+      if (probe.marked_empty() && !g.chance(1, 4)) continue;
+    }
     int closed = bd.marked_shortest_path_closed() ? 1 : 0;
     dimension_type var = g.below(n);
     long den = rnd_den(g);
+    // bounded T: now and then a denominator that T cannot represent (div_round_up_by_positive rounds it)
+    if (Ty<T>::big && g.chance(1, 12)) den = g.chance(1, 2) ? g.range(127, 300) : -g.range(127, 300);
     std::ostringstream L;
     std::string after;
     auto head = [&](const char* op) { L << id << " " << op << " " << mode << " " << n << " " << closed << " " << dump(bd) << " "; };
@@ -295,9 +307,24 @@ template <typename T> void run_T(pplv::Rng& g, const std::string& idp, int per) 
         head("baff"); L << var << " " << den << " " << bl << " " << coeffs(el) << " " << bu << " " << coeffs(eu) << " "; put(L.str());
         bd.bounded_affine_image(Variable(var), ll, lu, Coefficient(den));
       }
-      else {                    // unconstrain
+      else if (what == 15) {    // unconstrain
         head("unc"); L << var << " "; put(L.str());
         bd.unconstrain(Variable(var));
+      }
+      else if (what <= 18) {    // affine_preimage: invertible (var occurs in expr) or not
+        std::vector<long> e; long b; Linear_Expression le;
+        rnd_expr<T>(g, n, var, den, g.chance(1, 3) ? 4 : g.below(5), e, b, le);
+        head("apre"); L << var << " " << den << " " << b << " " << coeffs(e) << " "; put(L.str());
+        bd.affine_preimage(Variable(var), le, Coefficient(den));
+      }
+      else {                    // generalized_affine_preimage(var, relsym, expr, den)
+        std::vector<long> e; long b; Linear_Expression le;
+        if (g.chance(1, 3)) den = -labs(den);
+        rnd_expr<T>(g, n, var, den, g.chance(1, 2) ? 4 : g.below(5), e, b, le);
+        unsigned r = g.below(5);
+        Relation_Symbol rs = r <= 1 ? LESS_OR_EQUAL : r <= 3 ? GREATER_OR_EQUAL : EQUAL;
+        head("gapre"); L << var << " " << (r <= 1 ? "le" : r <= 3 ? "ge" : "eq") << " " << den << " " << b << " " << coeffs(e) << " "; put(L.str());
+        bd.generalized_affine_preimage(Variable(var), rs, le, Coefficient(den));
       }
       after = outcome(bd);
     } catch (int) {             // sgn() of a Not-a-Number: `throw(0)` (Checked_Number_inlines.hh)
@@ -328,6 +355,7 @@ template <typename T> void run_oct(pplv::Rng& g, const std::string& idp, int per
     int closed = oc.marked_strongly_closed() ? 1 : 0;
     dimension_type var = g.below(n);
     long den = rnd_den(g);
+    if (Ty<T>::big && g.chance(1, 12)) den = g.chance(1, 2) ? g.range(127, 300) : -g.range(127, 300);
     std::vector<long> e; long b; Linear_Expression le;
     rnd_expr<T>(g, n, var, den, g.chance(1, 2) ? 4 : g.below(5), e, b, le);
     std::ostringstream L;
@@ -361,6 +389,7 @@ int main(int argc, char** argv) {
       run_oct<mpz_class>(g, p + ".oz", (int)oct);
       run_oct<int8_t>(g, p + ".oi8", (int)oct);
       run_oct<mpq_class>(g, p + ".oq", (int)oct);
+      run_oct<double>(g, p + ".od", (int)oct);
     }
   }, 120);
 }
